@@ -627,6 +627,16 @@ def streams_for(prop, seed, tier, boost=1):
             add('env-%s=%s' % (key, val), genmod.explicit_config_stream(), {'env': {key: val}, 'nocorr': True})
     # the application holds trivial SUBCLASSES of Encoder / Decoder / HeaderTable (a counter attribute, a helper method; nothing
     # overridden): a random stream of the property once more, constructed that way (the model is the same)
+    # the same idea for the interpreter: docstrings stripped and asserts off (-OO), warnings raised as errors
+    oo = {'C11': lambda: G('ooi').int_stream(n_random=80) + genmod.int_call_forms_stream(),
+          'C12': lambda: G('ooh').henc_stream(n_random=60), 'C13': lambda: G('ood').hdec_stream(n_random=150) + genmod.huff_transition_catalogue()[::9],
+          'C06': lambda: G('oot').table_stream(n_tables=6 * k, n_ops=25), 'C14': lambda: G('oot').table_stream(n_tables=6 * k, n_ops=25),
+          'C02': lambda: G('oodc').dec_stream(n_conn=12 * k, mal=0.3), 'C04': lambda: G('oodc').dec_stream(n_conn=12 * k, mal=0.5),
+          'C05': lambda: G('oodc').dec_stream(n_conn=12 * k, mal=0.5), 'C07': lambda: G('oodc').dec_stream(n_conn=12 * k, mal=0.2),
+          'C08': lambda: G('oodc').dec_stream(n_conn=12 * k, mal=0.2), 'C17': lambda: G('oodc').dec_stream(n_conn=8 * k, mal=0.2)}
+    if prop not in ('C16', 'C18'):
+        add('no-asserts-no-docstrings-warnings-as-errors', oo.get(prop, lambda: G('ooc').conn_stream(n_conn=8 * k))(),
+            {'env': {'PYTHONOPTIMIZE': '2', 'HPACK_VERIF_WARNINGS': 'error'}})
     if prop not in ('C11', 'C12', 'C13', 'C16'):
         sub = {'C06': lambda: G('subt').table_stream(n_tables=6 * k, n_ops=25), 'C14': lambda: G('subt').table_stream(n_tables=6 * k, n_ops=25),
                'C02': lambda: G('subd').dec_stream(n_conn=15 * k, mal=0.2), 'C04': lambda: G('subd').dec_stream(n_conn=15 * k, mal=0.5),
